@@ -24,6 +24,8 @@ _memo = {}
 
 def coll_matches(body, coll, want):
     owner, suffix = want
+    if _coll_matches_param(body, coll, want):
+        return True
     if tuple(coll[-len(suffix):]) != tuple(suffix):
         return False
     if owner == "Mp4Track":
@@ -32,6 +34,14 @@ def coll_matches(body, coll, want):
     if coll[:2] == (1, "deref") and len(coll) > 2 + len(suffix) - 1:
         return True          # reached from self through the named fields
     return isinstance(root, int) and owner in body.locals[root]["ty"]
+
+
+def _coll_matches_param(body, coll, want):
+    """the helper receives the table itself (`fn stsc_index(stsc: &StscBox, ..)`): the collection is the last field of the
+    suffix below a parameter of the owner type"""
+    owner, suffix = want
+    root = coll[0]
+    return isinstance(root, int) and 1 <= root <= body.argc and owner in body.locals[root]["ty"] and tuple(x for x in coll[1:] if x != "deref") == (suffix[-1],)
 
 
 def index_in(it, body, st, sid, want, depth=0):
